@@ -446,6 +446,143 @@ example : ((runLink (freshLink false true (some 100) (some 64))
     ([.send .a [9, 8, 7]] ++ handshakeOps ++ [.poll .a, .deliver .b, .fetch .b 2048])).b.fetched) =
     [([9, 8, 7], 2048)] := by decide
 
+/-! ## Windows outside the range two rs-matter ends negotiate
+
+All from-fresh theorems of this file (`never_refused`, `in_order_once_fresh`, `window_respected`,
+`never_dead`, `never_stuck`, `C18_live_holds`) speak about the link of two rs-matter ends, which
+negotiate a window in `[6, 79]` (`negWin_ge`; `POk.wm`: `W * mtu ≤ 1583`).  For other windows
+(a peer that is not rs-matter) only the per-end theorems (`process_rx_total`, `end_inv`,
+`delivered_is_reassembly`, `segment_refused_iff`: every window 1..255) and the theorems that
+start from an ASSUMED `Sync` / `Steady` state (`sync_step`, `in_order_once`) apply.  The examples
+below show that those assumptions are satisfiable for small windows and for window 255. -/
+
+/-- The link reached from two fresh ends when the handshake request is rewritten in flight to
+announce the window `w`: the initiator is a peer that is not rs-matter and asks for a small window
+(two rs-matter ends always negotiate a window in `[6, 79]`, `negWin_ge`; the harness does the same
+rewriting with its `hsw` operation). -/
+def smallWindowLink (w : Nat) : LMon :=
+  runLink ((runLink (freshLink false false none none) [.poll .a]).setInq .b
+    [[0x65, 0x6c, 4, 0, 0, 0, 23, 0, w]]) [.deliver .b, .poll .b, .deliver .a]
+
+/-- it satisfies the representation invariant (it is a run of the model from two fresh ends with one
+segment replaced in the queue) -/
+theorem small_window_linv (w : Nat) (hw : w < 256) : LInv (smallWindowLink w) := by
+  refine link_inv _ _ ((link_inv _ _ (linv_fresh _ _ _ _) ?_).setInq .b ?_) ?_
+  · intro op h; simp at h; subst h; trivial
+  · intro seg h; simp at h; subst h
+    intro b hb; simp at hb; omega
+  · intro op h; simp at h
+    rcases h with rfl | rfl | rfl <;> trivial
+
+/-- a link on which nothing has been submitted or received yet and nothing travels is steady -/
+theorem steady_of_idle (l : LMon) (hqab : l.qab = []) (hqba : l.qba = [])
+    (ha : l.a.e.s.handshakePending = false ∧ l.a.e.sdu = [] ∧ l.a.e.off = 0 ∧ l.a.tx = {} ∧ l.a.submitted = [] ∧ l.a.rs = {})
+    (hb : l.b.e.s.handshakePending = false ∧ l.b.e.sdu = [] ∧ l.b.e.off = 0 ∧ l.b.tx = {} ∧ l.b.submitted = [] ∧ l.b.rs = {}) :
+    Steady l := by
+  obtain ⟨a1, a2, a3, a4, a5, a6⟩ := ha
+  obtain ⟨b1, b2, b3, b4, b5, b6⟩ := hb
+  intro x
+  cases x
+  · refine ⟨a1, ⟨?_, ?_, ?_, ?_, ?_⟩, ?_, ?_⟩
+    · simp [LMon.get, a2, a4, a5]
+    · simp [LMon.get, a2, a4]
+    · simp [LMon.get, a3, a4]
+    · intro h; exact absurd a2 h
+    · intro _; exact a3
+    · show NoHs l.qab
+      rw [hqab]; intro seg h; exact absurd h List.not_mem_nil
+    · show feedAll l.b.rs l.qab = l.a.tx
+      rw [hqab, b6, a4]; rfl
+  · refine ⟨b1, ⟨?_, ?_, ?_, ?_, ?_⟩, ?_, ?_⟩
+    · simp [LMon.get, b2, b4, b5]
+    · simp [LMon.get, b2, b4]
+    · simp [LMon.get, b3, b4]
+    · intro h; exact absurd b2 h
+    · intro _; exact b3
+    · show NoHs l.qba
+      rw [hqba]; intro seg h; exact absurd h List.not_mem_nil
+    · show feedAll l.a.rs l.qba = l.b.tx
+      rw [hqba, a6, b4]; rfl
+
+/-- **`Steady` is satisfiable with window 1** (hypotheses of `in_order_once`) ... -/
+theorem small_window_steady_1 : Steady (smallWindowLink 1) ∧
+    (smallWindowLink 1).a.e.s.windowSize = 1 ∧ (smallWindowLink 1).b.e.s.windowSize = 1 ∧
+    (smallWindowLink 1).a.e.s.established = true :=
+  ⟨steady_of_idle _ (by decide) (by decide) (by decide) (by decide), by decide, by decide, by decide⟩
+
+/-- ... and with window 2 -/
+theorem small_window_steady_2 : Steady (smallWindowLink 2) ∧
+    (smallWindowLink 2).a.e.s.windowSize = 2 ∧ (smallWindowLink 2).b.e.s.windowSize = 2 ∧
+    (smallWindowLink 2).a.e.s.established = true :=
+  ⟨steady_of_idle _ (by decide) (by decide) (by decide) (by decide), by decide, by decide, by decide⟩
+
+/-- **Window 1 stalls** (not a statement about two rs-matter ends, which never negotiate it): the
+responder's only slot is taken by the handshake response, which the initiator never acknowledges
+on its own (`setup`: `ack_level = 0`), and the initiator's only slot is reserved for a segment
+that carries an acknowledgement (`is_full`): neither end ever emits anything, whatever the clock.
+Safety (`in_order_once`) holds trivially; liveness is claimed for windows ≥ 3 only. -/
+example :
+    let l := runLink (smallWindowLink 1) [.send .a [1, 2, 3], .send .b [9], .poll .a, .poll .b, .tick 15, .poll .a, .poll .b,
+       .tick 1000, .poll .a, .poll .b]
+    l.qab = [] ∧ l.qba = [] ∧ l.a.e.sdu = [1, 2, 3] ∧ l.b.e.sdu = [9] := by decide
+
+/-- window 2: messages cross in both directions -/
+example :
+    let l := runLink (smallWindowLink 2) [.send .a [1, 2, 3], .send .b [9], .poll .a, .deliver .b, .fetch .b 100, .poll .b,
+      .deliver .a, .poll .a, .deliver .b, .poll .b, .deliver .a, .fetch .a 100]
+    l.b.fetched = [([1, 2, 3], 100)] ∧ l.a.fetched = [([9], 100)] := by decide
+
+
+/-- **The cross-end invariant `Sync` is satisfiable for a window below 6** (window 2, segment size
+20): `sync_step`, `never_dead`-style reasoning and `in_order_once` apply from this state. -/
+theorem small_window_sync_2 : Sync 2 20 (smallWindowLink 2) := by
+  have hp : POk 2 20 := ⟨by omega, by omega, by omega, by omega, by omega⟩
+  refine sync_mk .b small_window_steady_2.1 hp (by decide) (by decide) ?_ ?_ ?_
+  · have := d1_init hp (some 0)
+    have e1 : ((smallWindowLink 2).get .b).e.s.send = { windowSize := 2, level := 2 - 1, lastSent := 0, sentAt := some 0 } := by decide
+    have e2 : ((smallWindowLink 2).get Side.b.other).e.s.recv = { level := 2, ackSeq := 0 } := by decide
+    have e3 : ((smallWindowLink 2).get Side.b.other).rs = {} := by decide
+    have e4 : (smallWindowLink 2).inq Side.b.other = [] := by decide
+    have e5 : (smallWindowLink 2).inq Side.b = [] := by decide
+    rw [e1, e2, e3, e4, e5]; exact this
+  · have := d2_init hp false
+    have e1 : ((smallWindowLink 2).get Side.b.other).e.s.send = { windowSize := 2, level := 2 } := by decide
+    have e2 : ((smallWindowLink 2).get Side.b).e.s.recv = ((Session.fresh false false).setup 4 20 2).recv := by decide
+    have e3 : ((smallWindowLink 2).get Side.b).rs = {} := by decide
+    have e4 : (smallWindowLink 2).inq Side.b.other = [] := by decide
+    have e5 : (smallWindowLink 2).inq Side.b = [] := by decide
+    rw [e1, e2, e3, e4, e5]; exact this
+  · intro h
+    have : ((smallWindowLink 2).get Side.b).e.s.send.level = 1 := by decide
+    omega
+
+/-- `in_order_once` instantiated at a window outside `[6, 79]`: from the window-2 link, any schedule. -/
+example (ops : List Op) (hw : WfSched ops) (y : Side) (k : Nat) (b : List Nat) (c : Nat)
+    (hk : ((runLink (smallWindowLink 2) ops).get y).fetched[k]? = some (b, c)) :
+    ∃ full, ((runLink (smallWindowLink 2) ops).get y.other).submitted[k]? = some full ∧ b = full.take c :=
+  in_order_once _ (small_window_linv 2 (by omega)) small_window_steady_2.1 ops hw y k b c hk
+
+/-- A window above 79 can only arise at an rs-matter *initiator* whose peer answers with a larger
+window than was requested (`process_rx_handshake_resp` accepts every window 1..255; an rs-matter
+responder never chooses more than 79): the response is rewritten in flight to announce 255. -/
+def bigWindowLink : LMon :=
+  runLink ((runLink (freshLink false false none none) [.poll .a, .deliver .b, .poll .b]).setInq .a
+    [[0x65, 0x6c, 4, 20, 0, 255]]) [.deliver .a]
+
+/-- `LInv` and `Steady` (the hypotheses of `in_order_once`) are satisfiable with window 255 at the
+initiator (the responder keeps 79: the two ends disagree, no cross-end invariant `Sync` exists for
+this link; only the per-end theorems and `in_order_once` - under whose link semantics a refused
+segment is never skipped - apply). -/
+theorem big_window_steady : LInv bigWindowLink ∧ Steady bigWindowLink ∧
+    bigWindowLink.a.e.s.windowSize = 255 ∧ bigWindowLink.a.e.s.established = true := by
+  refine ⟨?_, steady_of_idle _ (by decide) (by decide) (by decide) (by decide), by decide, by decide⟩
+  refine link_inv _ _ ((link_inv _ _ (linv_fresh _ _ _ _) ?_).setInq .a ?_) ?_
+  · intro op h; simp at h
+    rcases h with rfl | rfl | rfl <;> trivial
+  · intro seg h; simp at h; subst h
+    intro b hb; simp at hb; omega
+  · intro op h; simp at h; subst h; trivial
+
 /-! ## No deadlock (towards delivery under a fair schedule) -/
 
 theorem negWin_ge (ga gb : Option Nat) (rb : Bool) : 6 ≤ negWin ga gb rb := by
